@@ -70,6 +70,8 @@ func c05Msg(tag string, typ, pre, tail int) base.RtmpMsg {
 			Header:  base.RtmpHeader{Csid: 6, MsgLen: uint32(len(p)), MsgTypeId: uint8(typ), MsgStreamId: 1, TimestampAbs: vrt.U32(tag + "ts")},
 			Payload: p,
 		}
+	case 14: // avcC record up to and including the SPS count; everything after it arbitrary
+		p = []byte{0x17, 0, 0, 0, 0, 1, 0x64, 0, 0x1f, 0xff, 0xe1}
 	case 13: // HEVC sequence header of the minimum record size with an arbitrary tail (reaches the record and Annex-B fallback parsers)
 		p = make([]byte, 33)
 		p[0] = 0x1c
